@@ -40,7 +40,7 @@ namespace {
     }
     // a block of statements that builds/mutates one local and reports through t()/ts(); returns the local's name
     std::string piece(std::string &out, std::string &ret_expr) {
-      const int k = int(rng.below(14));
+      const int k = int(rng.below(18));
       switch (k) {
       case 0: {
         const std::string s = nm("s");
@@ -122,6 +122,33 @@ namespace {
         ret_expr = lit_int();
         return "";
       }
+      case 14: {
+        // lambda literals: with and without captures, called in place, and handed to functions that assign to / rebind
+        // their parameter (a function value is a value like any other: the literal must denote a fresh one every time)
+        const std::string c = nm("cp");
+        const std::string kk = std::to_string(rng.range(1, 50));
+        switch (rng.below(4)) {
+        case 0: out += "var " + c + " = " + lit_int() + "; t(fun[" + c + "](z) { " + c + " + z }(a)); "; break;
+        case 1: out += "t(relam(fun() { " + kk + " })); t(fun() { " + kk + " }()); "; break;
+        case 2: out += "t(relam(fun(z) { z + " + kk + " })); "; break;
+        default: out += "var " + c + " = [" + lit_int() + "]; t(relam(fun[" + c + "]() { " + c + ".push_back(1); " + c + ".size() })); "; break;
+        }
+        ret_expr = lit_int();
+        return "";
+      }
+      case 15:
+      case 16: {
+        // a shared helper whose loop node serves strings, vectors and a user-defined sequence that was defined
+        // only after the helper had already been evaluated (see warm-up / late definitions in execute)
+        switch (rng.below(4)) {
+        case 0: out += "ts(loopit(\"ab\" + to_string(a))); "; break;
+        case 1: out += "ts(loopit(Countdown(a + 2))); "; break;
+        case 2: out += "ts(loopit([" + lit_int() + ", a])); "; break;
+        default: out += "ts(loopit(Countdown(2))); ts(loopit(\"z\")); t(late_helper(a)); "; break;
+        }
+        ret_expr = lit_int();
+        return "";
+      }
       default: {
         const std::string s = nm("c");
         out += "var " + s + " = 'x'; var " + s + "b = true; if (" + s + "b) { t(1) }; ";
@@ -173,7 +200,17 @@ namespace {
                         "def app(s) { s += \"x\"; return s }\n"
                         "def rebind(p) { p := p + 1; return p }\n"
                         "def rebind_s(s) { s := s + \"!\"; return s }\n"
-                        "def tb(b) { if (b) { t(1) } else { t(0) } }\n";
+                        "def tb(b) { if (b) { t(1) } else { t(0) } }\n"
+                        "def relam(h) { var r = 0; try { r = h() } catch (e) { r = h(5) }; h = fun() { 99 }; return r }\n"
+                        "def loopit(c) { var acc = \"\"; for (x : c) { acc += to_string(x); acc += \",\" }; return acc }\n"
+                        "def late_helper(x) { return 1000 + x }\n";
+
+  // definitions the embedder adds AFTER some code has already been evaluated (the engine under test evaluates the
+  // warm-up calls first; a pristine reference engine has everything defined before its single call)
+  const char *LATE_DEFS = "class Countdown { var n; def Countdown(n) { this.n = n }; def empty() { this.n <= 0 }; def front() { this.n }; def pop_front() { this.n -= 1 } }\n"
+                          "def range(Countdown c) { Countdown(c.n) }\n"
+                          "def late_helper(int x) { return 2000 + x }\n";
+  const char *WARM_UP[] = {"loopit(\"ab\")", "loopit(\"\")", "late_helper(1)", "loopit([1, 2])"};
 
   struct CallOut {
     std::string out;
@@ -199,6 +236,7 @@ namespace {
              "cb");
       e->eval(PRELUDE);
     }
+    void late_defs() { e->eval(LATE_DEFS); }
     // top-level variables of the calling thread that block-shaped trees refer to
     void declare_top_level() {
       try {
@@ -241,6 +279,7 @@ namespace {
       }
       const int T = int(plan.range(1, 3));
       p["actors"] = J(T);
+      p["warm"] = J(int(plan.below(32)));
       J &ops = p["ops"];
       ops = J::array();
       // every chosen (function, arg, style) is called 3..6 times, by varying actors, shuffled
@@ -310,6 +349,7 @@ namespace {
           }
           try {
             h.declare_top_level();
+            h.late_defs();
             auto ast = h.e->parse(trees[i].str());
             co.out = "=" + show(h.e->eval(*ast), h.e.get());
           } catch (...) {
@@ -321,6 +361,7 @@ namespace {
           for (size_t i = 0; i < fns.size(); ++i) {
             h.e->eval(def_text(fns, i));
           }
+          h.late_defs();
           h.fault_now[0] = int(op.at("fault").num());
           co.out = eval_show(*h.e, call_script(int(f), int(op.at("arg").num()), int(op.at("style").num())));
         }
@@ -344,6 +385,28 @@ namespace {
         dyn.push_back(d);
         dump_before.push_back(d ? d->get_parse_tree().to_string() : std::string());
       }
+      // history before the late definitions: shared helpers (and, in some plans, generated functions) are evaluated
+      // while the user-defined sequence type and the typed overload of late_helper do not exist yet
+      const int warm = int(plan.at("warm").num(0));
+      for (int w = 0; w < 4; ++w) {
+        if (warm & (1 << w)) {
+          try {
+            e.eval(WARM_UP[w]);
+            r.counters["probe_helper_evaluated_before_late_definitions"] += 1;
+          } catch (...) {
+          }
+        }
+      }
+      if (warm & 16) {
+        for (size_t i = 0; i < fns.size(); ++i) {
+          try {
+            e.eval("f" + std::to_string(i) + "(1)"); // may fail where the body needs a late definition
+          } catch (...) {
+          }
+        }
+        h.traces[0].clear();
+      }
+      h.late_defs();
       std::vector<AST_NodePtr> asts;
       std::vector<std::string> tree_before;
       for (size_t i = 0; i < trees.size(); ++i) {
